@@ -189,6 +189,7 @@ func (env *c14Env) runCopy(sp *c14Spec, cfg c14Cfg, src io.ReaderAt, size int64,
 		o.Calls, o.Panic = r.calls, r.p
 		o.Bytes = sink.buf
 		o.HitAt = sink.hitAt
+		o.SinkErr = sink.erred
 		for i, cl := range o.Calls {
 			if cl.Err != nil {
 				o.First = i
@@ -445,6 +446,11 @@ func (env *c14Env) copyCase(sp *c14Spec, cfg c14Cfg, lay *c14CopyLayout, f c14Fa
 		c.Case(bucket, key, true)
 		return
 	}
+	if o.First < 0 && o.SinkErr {
+		c.Violation("copy-sink-error-dropped", "the destination returned an error from a Write and every call of the writer returned nil: "+where, rp)
+		c.Case(bucket, key, true)
+		return
+	}
 	if item >= 0 && src.hits > 0 && o.First < 0 {
 		c.Violation("copy-short-source-unreported", "the source ended early and every call returned nil: "+where, rp)
 	}
@@ -595,7 +601,18 @@ func (env *c14Env) copySweep(sp *c14Spec, src []byte) {
 				stride = c.N(997, 131)
 			}
 			ks := env.copyOffsets(lay, stride, b == 0 || b == 7)
-			for _, kind := range []string{"err", "short"} {
+			var pcs [][]c14Piece
+			for _, it := range lay.items {
+				pcs = append(pcs, it.pieces)
+			}
+			fullKs := c14PieceEnds(pcs, len(lay.ref), c.N(32, 400))
+			allKs := ks
+			for _, kind := range []string{"err", "short", "full"} {
+				ks := allKs
+				if kind == "full" {
+					// one offset in every Write call that reaches the destination
+					ks = fullKs
+				}
 				var answers []string
 				if c.HasOracle() && len(ks) > 0 {
 					var sb strings.Builder
@@ -712,6 +729,8 @@ func (env *c14Env) vmCopy(sp *c14Spec, lay *c14CopyLayout) {
 			fl = fmt.Sprintf("(ErrAt %d)", f.K)
 		case "short":
 			fl = fmt.Sprintf("(ShortAt %d)", f.K)
+		case "full":
+			fl = fmt.Sprintf("(FullErrAt %d)", f.K)
 		}
 		env.vmCopyCases = append(env.vmCopyCases, fmt.Sprintf("(%s, %s, %s, (%d, %d, %s)%%nat)", bs, fl, sh, code, call, core.CoqBool(bytes.Equal(o.Bytes, lay.ref))))
 	}
@@ -725,6 +744,7 @@ func (env *c14Env) vmCopy(sp *c14Spec, lay *c14CopyLayout) {
 		for _, k := range []int{0, 3, 4, n / 3, n / 2, n - 9, n - 1} {
 			add(buf, c14Fault{Kind: "err", K: k}, -1, 0)
 			add(buf, c14Fault{Kind: "short", K: k}, -1, 0)
+			add(buf, c14Fault{Kind: "full", K: k}, -1, 0)
 		}
 	}
 }
